@@ -7,6 +7,7 @@ mod words;
 mod fsm;
 mod link;
 mod prep;
+mod scan;
 
 fn main() {
     let args: Vec<String> = std::env::args().collect();
@@ -20,6 +21,10 @@ fn main() {
     let stdout = io::stdout();
     let mut out = io::BufWriter::with_capacity(1 << 20, stdout.lock());
     let stream = args[1].as_str();
+    if stream == "scan-child" {
+        scan::child_main(&args[2], &args[3]);
+        return;
+    }
     link::init_global_cfg();
     for line in stdin.lock().lines() {
         let line = line.expect("read stdin");
@@ -32,6 +37,8 @@ fn main() {
             "fsm" => fsm::run_case(line),
             "link" => link::run_case(line),
             "prep" => prep::run_case(line),
+            "scan" => scan::run_case(line),
+            "rdhrt" => scan::run_rdhrt(line),
             "dispatch" => link::run_dispatch_case(line),
             _ => {
                 eprintln!("unknown stream {stream}");
